@@ -12,6 +12,8 @@ mod props_budget;
 mod props_fw;
 mod props_more;
 mod props_ref;
+mod props_sim;
+mod simsut;
 mod refmodel;
 mod sup;
 
@@ -30,6 +32,9 @@ fn engine_for(prop: &str) -> Option<Box<dyn Engine>> {
         "C10" => Box::new(FwEngine(props_more::C10)),
         "C06" => Box::new(drawspace::C06),
         "C05" => Box::new(FwEngine(props_ref::C05)),
+        "C14" => Box::new(props_sim::SimEngine(props_sim::C14)),
+        "C15" => Box::new(props_sim::SimEngine(props_sim::C15)),
+        "C19" => Box::new(props_sim::SimEngine(props_sim::C19)),
         _ => return None,
     })
 }
